@@ -59,7 +59,7 @@ def gen_proc(rng, nm, types, depth=0, allow_internal=True, kind=None):
     kind = kind or rng.choice(["subroutine", "function"])
     p = {"kind": kind, "name": nm.fresh("p" if kind == "subroutine" else "f"),
          "args": [], "doc": rng.random() < 0.8, "locals": [], "internal": [], "calls": [],
-         "perm": None, "namelist": None, "common": None, "localtype": None, "uses": []}
+         "perm": None, "namelist": None, "common": None, "localtype": None, "localiface": None, "uses": []}
     for _ in range(rng.randint(0, 3)):
         a = {"name": nm.fresh("a"), "doc": rng.random() < 0.5, "type": None}
         if types and rng.random() < 0.3:
@@ -77,8 +77,12 @@ def gen_proc(rng, nm, types, depth=0, allow_internal=True, kind=None):
             p["namelist"] = None
     if rng.random() < 0.1:
         p["common"] = {"name": nm.fresh("cb"), "var": nm.fresh("cv"), "doc": rng.random() < 0.5}
-    if depth == 0 and rng.random() < 0.12:
-        p["localtype"] = {"name": nm.fresh("lt"), "doc": True, "comp": nm.fresh("c")}
+    if depth == 0 and rng.random() < 0.18:
+        # entities declared inside a procedure that own neither a page nor an anchor (get_url() is None):
+        # a derived type with a component, an interface block with an explicit body
+        p["localtype"] = {"name": nm.fresh("lt"), "doc": True, "comp": nm.fresh("c"), "compdoc": rng.random() < 0.5}
+    if depth == 0 and rng.random() < 0.08:
+        p["localiface"] = {"name": nm.fresh("lp"), "doc": True, "generic": nm.fresh("lg") if rng.random() < 0.4 else None}
     return p
 
 
@@ -153,12 +157,12 @@ def gen_module(rng, nm, earlier_mods, size):
         form = rng.choice(["named", "unnamed", "unnamed"])
         bodies = [gen_proc(rng, nm, [], allow_internal=False) for _ in range(rng.randint(1, 2))]
         for b in bodies:
-            b["locals"], b["namelist"], b["common"], b["localtype"] = [], None, None, None
+            b["locals"], b["namelist"], b["common"], b["localtype"], b["localiface"] = [], None, None, None, None
         m["ifaces"].append({"form": form, "name": nm.fresh("ifc") if form == "named" else None, "bodies": bodies,
                             "doc": rng.random() < 0.6})
     for _ in range(pick_count(rng, [(0, 5), (1, 3), (2, 1)])):
         b = gen_proc(rng, nm, [], allow_internal=False)
-        b["locals"], b["namelist"], b["common"], b["localtype"] = [], None, None, None
+        b["locals"], b["namelist"], b["common"], b["localtype"], b["localiface"] = [], None, None, None, None
         m["absints"].append(b)
     for _ in range(pick_count(rng, [(0, 6), (1, 2)])):
         m["enums"].append({"doc": rng.random() < 0.6, "items": [nm.fresh("e") for _ in range(rng.randint(1, 3))],
@@ -169,7 +173,7 @@ def gen_module(rng, nm, earlier_mods, size):
     # separate module procedures (interface in the module, body in a submodule)
     for _ in range(pick_count(rng, [(0, 5), (1, 3), (2, 2)])):
         b = gen_proc(rng, nm, [], allow_internal=False)
-        b["locals"], b["namelist"], b["common"], b["localtype"] = [], None, None, None
+        b["locals"], b["namelist"], b["common"], b["localtype"], b["localiface"] = [], None, None, None, None
         b["implform"] = rng.choice(["procedure", "full"])
         m["modprocs"].append(b)
     return m
@@ -229,6 +233,12 @@ def gen_blockdata(rng, nm, named=True):
         b["type"] = {"name": nm.fresh("bt"), "doc": rng.random() < 0.8, "comp": nm.fresh("c"), "var": nm.fresh("bv")}
     return b
 
+
+# How the project directory / the output directory is reached (the property quantifies over every project; where it
+# lives and how its path is spelt is part of that): directly, through a symbolic link (the project directory itself or
+# one of its ancestors: symlinked home / checkout / `current -> releases/x`), through a path with `..` in it, or with an
+# output directory whose path crosses a symbolic link.
+LOCATIONS = ["plain"] * 6 + ["symlink-root", "symlink-ancestor", "dotdot", "symlink-output"]
 
 SHAPES = ["any", "any", "any", "single-file", "program-only", "no-modules", "procs-only", "module-only", "two-programs", "blockdata"]
 
@@ -303,6 +313,7 @@ def gen_project(rng: random.Random, size: int = 2) -> dict:
     P["pages"] = gen_pages(rng) if rng.random() < 0.4 else None
     P["media"] = rng.random() < 0.25
     P["links"] = gen_links(rng, P)
+    P["location"] = rng.choice(LOCATIONS)
     return P
 
 
@@ -453,7 +464,12 @@ def gen_links(rng, P):
     """Assign to every documentable slot a list of link texts.  Slots are addressed
     by a running counter in render(); here we only fix a seed and rates."""
     return {"seed": rng.randrange(1 << 30), "rate": rng.choice([0.0, 0.3, 0.6, 0.9]),
-            "md_rate": rng.choice([0.0, 0.15, 0.3])}
+            "md_rate": rng.choice([0.0, 0.15, 0.3]),
+            # doc comments of more than one paragraph (the summary is then shorter than the documentation and FORD
+            # appends a "Read more" link) and doc comments with an explicit `summary:` metadata line
+            "para_rate": rng.choice([0.0, 0.25, 0.5, 0.8]), "summary_rate": rng.choice([0.0, 0.0, 0.1, 0.3]),
+            # doc comments that are a bullet list only (the converted documentation has no <p> paragraph)
+            "list_rate": rng.choice([0.0, 0.0, 0.1, 0.25])}
 
 
 # ----------------------------------------------------------------- rendering
@@ -464,6 +480,9 @@ class _Ctx:
         self.rng = random.Random(P["links"]["seed"])
         self.rate = P["links"]["rate"]
         self.md_rate = P["links"]["md_rate"]
+        self.para_rate = P["links"].get("para_rate", 0.0)
+        self.summary_rate = P["links"].get("summary_rate", 0.0)
+        self.list_rate = P["links"].get("list_rate", 0.0)
         self.pool = entity_index(P)
         self.mdpool = md_link_pool(P)
         self.used: dict[str, int] = {}
@@ -484,6 +503,23 @@ class _Ctx:
             self.used[cls] = self.used.get(cls, 0) + 1
             txt += f" and {lk}"
         lines = [f"{indent}!! {txt}"]
+        if r.random() < self.list_rate:
+            self.used["(list-only doc)"] = self.used.get("(list-only doc)", 0) + 1
+            lines = [f"{indent}!! * {txt}", f"{indent}!! * second point about {what}"]
+        elif r.random() < self.para_rate:
+            # further paragraphs: the first one becomes the summary, the entity's page shows everything
+            self.used["(multi-paragraph doc)"] = self.used.get("(multi-paragraph doc)", 0) + 1
+            for _ in range(r.randint(1, 2)):
+                more = f"more about {what}"
+                if self.pool and r.random() < self.rate:
+                    lk, cls = r.choice(self.pool)
+                    self.used[cls] = self.used.get(cls, 0) + 1
+                    more += f" see {lk}"
+                lines += [f"{indent}!!", f"{indent}!! {more}"]
+        if r.random() < self.summary_rate:
+            # metadata block in front of the documentation (ends at the first blank doc line)
+            self.used["(summary metadata)"] = self.used.get("(summary metadata)", 0) + 1
+            lines = [f"{indent}!! summary: brief of {what}", f"{indent}!!"] + lines
         if extra:
             lines += [f"{indent}!! {e}" for e in extra]
         return lines
@@ -508,7 +544,17 @@ def render_proc(cx, p, ind, in_iface=False, prefix=""):
         L.append(f"{ind}  type {lt['name']}")
         L += cx.doc(True, f"local type {lt['name']}", ind + "    ")
         L.append(f"{ind}    integer :: {lt['comp']}")
+        L += cx.doc(lt.get("compdoc", False), f"component {lt['comp']} of local type {lt['name']}", ind + "      ")
         L.append(f"{ind}  end type {lt['name']}")
+    if p.get("localiface"):
+        li = p["localiface"]
+        L.append(f"{ind}  interface {li['generic']}" if li["generic"] else f"{ind}  interface")
+        if li["generic"]:
+            L += cx.doc(True, f"local interface {li['generic']}", ind + "    ")
+        L.append(f"{ind}    subroutine {li['name']}()")
+        L += cx.doc(True, f"local interface procedure {li['name']}", ind + "      ")
+        L.append(f"{ind}    end subroutine {li['name']}")
+        L.append(f"{ind}  end interface")
     for a in p["args"]:
         L.append(f"{ind}  {_decl(a)} :: {a['name']}")
         L += cx.doc(a["doc"], f"argument {a['name']}", ind + "    ")
